@@ -456,11 +456,19 @@ def _guard(fn):
     return run
 
 
+def notes_ok(lines, obs):
+    for ln, ob in zip(lines, obs):
+        if ln == "note other_labels_unaffected_by_nan_label" and ob != "ok":
+            return fail(ln, "results for one label do not depend on the driver of another label (here: another label's stock is NaN)",
+                        "the other labels' inflow as before", ob)
+    return None
+
+
 def check_C16_with_inverse(lines, obs):
     """C16 proper (impulse responses, superposition of the inflow-driven model), then the
     stock-driven model as the inverse of that linear map: a stock-driven result that does not
     reproduce its driver through the linear inflow-driven model is not linear in the driver either"""
-    return check_C16(lines, obs) or check_C10(lines, obs)
+    return notes_ok(lines, obs) or check_C16(lines, obs) or check_C10(lines, obs)
 
 
 CHECKS = {k: _guard(v) for k, v in {"C03": check_C03, "C08": check_C08, "C09": check_C09,
